@@ -211,7 +211,7 @@ def history_target_nonempty(ctx, rid: str) -> None:
                  f"transition exits the domain and enters nothing (leafless configuration)", r)
 
 
-def descent_filters_history(ctx, rid: str) -> None:
+def descent_filters_history(ctx, rid: str, kinds: Optional[Set[str]] = None) -> None:
     """(c) every default descent in the entry routines excludes history children."""
     c = ctx.c
     for v in VIEWS:
@@ -223,6 +223,8 @@ def descent_filters_history(ctx, rid: str) -> None:
             if arg is None:
                 continue
             kind, ok, why = _descent_history_filter(en, arg, call)
+            if kinds is not None and kind not in kinds:
+                continue
             c.ob(rid, ok, en, f"descent:{kind}", why, call)
 
 
@@ -552,3 +554,88 @@ def unconditional_in_loop(g, header: int, A: Iterable[int]) -> bool:
     starts = [d for d, lab in g.succ[header] if lab in ("loop", "T")]
     r = g.reachable(starts, blocked_nodes=A, follow_exc=False)
     return header not in r
+
+
+# ---------------------------------------------------------------------------
+# cancel-before-exit-actions (C03.R3 / C08.R1)
+# ---------------------------------------------------------------------------
+def cancel_before_exit_actions(ctx, rid: str) -> None:
+    c = ctx.c
+    for v in VIEWS:
+        r = roles(ctx, v)
+        xt = r.exit
+        g = cfg_of(xt.node)
+        cancel_calls = self_calls_in(xt, "_cancel_state_tasks")
+        cancels = [n for call in cancel_calls for n in cfg_node_of(xt, call)]
+        xacts = [call for call in self_calls_in(xt, "_execute_actions")
+                 if call.args and isinstance(call.args[0], ast.Attribute) and call.args[0].attr == "exit"]
+        c.floor(rid, f"cancel / exit-action sites in {xt.short}", min(len(xacts), len(cancels)), 1)
+        for call in xacts:
+            ids = cfg_node_of(xt, call)
+            cl = [l for cc in cancel_calls for l in enclosing_loops(xt, cc) if isinstance(l, ast.For)]
+            al = [l for l in enclosing_loops(xt, call) if isinstance(l, ast.For)]
+            same = bool(cl) and bool(al) and norm(cl[0].iter) == norm(al[0].iter)
+            if cl and al and cl[0] is al[0]:
+                hdr0 = g.nodes_of(al[0])[0]
+                ok1 = all(before_within_iteration(g, hdr0, cancels, n) for n in ids)
+            elif cl and al:
+                chdr = g.nodes_of(cl[0])[0]
+                ok1 = all(g.always_before([chdr], n, follow_exc=False) for n in ids) and \
+                    not any(g.can_reach(n, chdr, follow_exc=False) for n in ids) and \
+                    unconditional_in_loop(g, chdr, cancels)
+            else:
+                ok1 = False
+            c.ob(rid, ok1 and same, xt, "cancel<exit-actions",
+                 "a state's timers/services are cancelled before its exit actions run" if ok1 and same else
+                 "exit actions can run while the state's timers/services are still armed (a timer could fire for a state being left)", call)
+
+
+def thread_targets(ctx, view: str) -> List[FuncInfo]:
+    out = []
+    for f in roles(ctx, view).funcs:
+        for n in own_nodes(f.node):
+            if isinstance(n, ast.Call) and dotted(n.func) in ("threading.Thread", "Thread"):
+                tgt = next((k.value for k in n.keywords if k.arg == "target"), None)
+                if isinstance(tgt, ast.Name) and tgt.id in f.nested:
+                    out.append(f.nested[tgt.id])
+    return out
+
+
+def registry_hygiene(ctx, rid: str) -> None:
+    """stop() removes the systemId registry entries this interpreter created."""
+    c = ctx.c
+    for v in VIEWS:
+        r = roles(ctx, v)
+        clo = ctx.r.self_closure([r.stop], v)
+        removes = []
+        for f in clo.values():
+            for n in own_nodes(f.node):
+                # del registry[k] / registry.pop(k) / self._system.clear() ... on the registry
+                if isinstance(n, ast.Delete):
+                    for t in n.targets:
+                        if isinstance(t, ast.Subscript) and _is_registry_expr(f, t.value):
+                            removes.append(n)
+                elif isinstance(n, ast.Call) and isinstance(n.func, ast.Attribute) and n.func.attr in ("pop", "clear", "popitem") \
+                        and _is_registry_expr(f, n.func.value):
+                    removes.append(n)
+        registers = [s for f in r.funcs for s in ctx.r.callsites(f, v) if s.callee_text.endswith("_register_in_system")]
+        c.floor(rid, f"registry registrations ({v})", len(registers), 1)
+        ok = bool(removes)
+        c.ob(rid, ok, r.stop, "stop-cleans-registry",
+             "stop() removes this interpreter's systemId registrations" if ok else
+             f"{r.stop.short} (and everything it calls on itself) never removes entries from the actor-system registry, although "
+             f"{len(registers)} site(s) register children there: stopped actors stay addressable by systemId", r.stop.node)
+
+
+def _is_registry_expr(f: FuncInfo, e: ast.AST) -> bool:
+    t = norm(e)
+    if "_system" in t and "registry" not in t and "_system_registry" not in t:
+        return t.endswith("_system")
+    if isinstance(e, ast.Name):
+        for a in assignments_to(f, e.id):
+            v = getattr(a, "value", None)
+            if v is not None and "_system_registry" in norm(v):
+                return True
+    if isinstance(e, ast.Call) and "_system_registry" in norm(e.func):
+        return True
+    return False
